@@ -381,7 +381,7 @@ def scenarios(thorough, rng):
         S.append(('killed-first-setup(before coredata)/setup', [('S', [(0, 1)], None, 4)], ('S', [(1, 1)])))
         S.append(('killed-configure(cmd_line updated)/reconfigure', conf + [('C', [(0, 2)], None, 3)], ('R', [])))
         S.append(('reconfigured-twice/configure', conf + [('R', [(2, 2)], None, None), ('R', [(0, 3)], None, None)], ('C', [(2, 1)])))
-    if os.environ.get('C09_DEPSCAN') == '1':
+    if os.environ.get('C09_DEPSCAN', '1') == '1':
         # a C++-modules project (per-target dependency-scan pickle).  Behind a toggle until pending/C09-depscan-pickle-atomic.diff
         # is applied: on the unchanged tree a kill between the truncating open and the write of <target>.p/<name>.dat makes
         # every later `meson setup --reconfigure` die with EOFError.
